@@ -105,6 +105,11 @@ Proof.
     rewrite (proj2 (list_eqb_eq _ _) eq_refl). reflexivity.
 Qed.
 
+Theorem ops_pair_iff ov sv : ops_pair_ok ov sv = true <-> (ov = 3 /\ sv = 4) \/ (ov = 6 /\ sv = 6).
+Proof.
+  unfold ops_pair_ok. rewrite orb_true_iff, !andb_true_iff, !N.eqb_eq. tauto.
+Qed.
+
 (* certificates *)
 Theorem v6_primary_only_v6_subkeys sv : subkey_version_ok 6 sv = true -> sv = 6.
 Proof. cbn. intros H. apply N.eqb_eq. exact H. Qed.
